@@ -90,6 +90,8 @@ def run_model_parallel(model, lines, jobs=4):
 
 def kind_of(v):
     """short stable kind of an engine observation that differs from the model's"""
+    if v.startswith('HARNESS-ERROR oracle exhausted'):
+        return 'extra-external-calls'     # the engine made more external calls than the reference run
     if v.startswith(INFRA):
         return v.split()[0]
     if v.startswith('OK'):
